@@ -512,9 +512,9 @@ def gen_fit_one(r, flagged_share):
     c = dict(kind="fit", ff=ff, free=free, multi=multi, steps=steps, pattern=pattern, offsets=offsets,
              targets=targets, trng=trng, orng=orng, weights=weights, gain=gain, bias=bias,
              bypass=False, flag=flag, rel=rel)
-    # reach the slicing behind a checker that refuses shifted ranges: switch the checker off from outside,
-    # but only for configurations the specification accepts
-    if rel == "shifted" and py_verdict(c)[0] == "accept" and r.random() < 0.7:
+    # the slicing alone (checker switched off from outside) for a share of the shifted ranges, and only for
+    # configurations the specification accepts
+    if rel == "shifted" and py_verdict(c)[0] == "accept" and r.random() < 0.3:
         c["bypass"] = True
     return c
 
